@@ -291,8 +291,117 @@ pub fn case_from_shape(rng: &mut Rng, sh: &Shape) -> Case {
     }
 }
 
+/// W10: a few very long patterns (up to > 65 536 symbols: deep states, large `length` fields,
+/// byte lengths beyond u16) next to short ones that are their prefixes / infixes / suffixes.
+/// Long patterns are random over >= 3 symbols so that the brute-force oracle stays near-linear.
+pub fn long_case(rng: &mut Rng, variant: Variant, kind: MatchKind) -> Case {
+    let akind = match variant {
+        Variant::Bytewise => *rng.pick(&[Alpha::Binary, Alpha::Ascii]),
+        Variant::Charwise => *rng.pick(&[Alpha::Ascii, Alpha::Utf8Low, Alpha::Utf8Full]),
+    };
+    let asz = rng.range(3, 6);
+    let alpha = alphabet(rng, akind, asz);
+    let mut pats: Vec<Vec<Sym>> = Vec::new();
+    if rng.chance(1, 3) {
+        // periodic chains ("aaaa…", "abab…"): long runs of single-child states. Kept <= ~1500
+        // symbols because the brute-force oracle is quadratic on periodic text.
+        let unit: Vec<Sym> = (0..rng.range(1, 3)).map(|_| rng.pick(&alpha).clone()).collect();
+        let len = match rng.below(3) {
+            0 => 253 + 256 * rng.range(1, 4),
+            1 => 253 + 256 * rng.range(1, 4) + rng.range(0, 2) - 1,
+            _ => rng.range(200, 1500),
+        };
+        let long: Vec<Sym> = (0..len).map(|i| unit[i % unit.len()].clone()).collect();
+        let mut pats = vec![long.clone()];
+        if rng.chance(1, 2) {
+            pats.push(long[..rng.range(1, len - 1)].to_vec());
+        }
+        if rng.chance(1, 2) {
+            let mut q = long[..rng.range(1, len - 1)].to_vec();
+            q.push(rng.pick(&alpha).clone());
+            if concat(&q) != concat(&long[..q.len()]) {
+                pats.push(q);
+            }
+        }
+        let mut seen = HashSet::new();
+        pats.retain(|p| seen.insert(concat(p)));
+        rng.shuffle(&mut pats);
+        let mut h = concat(&long);
+        h.extend(concat(&long[..len / 2]));
+        let frn = foreign(rng, akind, &alpha);
+        if let Some(f) = frn.first() {
+            h.extend_from_slice(f);
+        }
+        h.extend(concat(&long[..len - 1]));
+        let entry = if rng.chance(1, 2) { Entry::New } else { Entry::WithValues };
+        let patterns_b: Vec<Vec<u8>> = pats.iter().map(|p| concat(p)).collect();
+        let vals = match entry {
+            Entry::New => (0..patterns_b.len() as u32).collect(),
+            Entry::WithValues => values(rng, patterns_b.len()),
+        };
+        return Case {
+            spec: Spec { variant, kind, nfb: nfb(rng), entry },
+            patterns: patterns_b,
+            values: vals,
+            haystacks: vec![h],
+            utf8: akind != Alpha::Binary,
+            workload: "W10-long-periodic-chain",
+        };
+    }
+    let n_long = rng.range(1, 2);
+    for _ in 0..n_long {
+        let len = *rng.pick(&[200usize, 255, 256, 257, 300, 500, 1000, 1000, 4096, 5000, 21_846, 32_768, 65_535, 65_536, 70_000]);
+        let len = if rng.is_bytes_mode() { len.min(1000) } else { len };
+        pats.push((0..len).map(|_| rng.pick(&alpha).clone()).collect());
+    }
+    let long0 = pats[0].clone();
+    for _ in 0..rng.range(1, 5) {
+        let a = rng.usize_below(long0.len());
+        let b = (a + rng.range(1, 6)).min(long0.len());
+        pats.push(long0[a..b].to_vec());
+    }
+    pats.push(long0[..rng.range(1, long0.len() - 1)].to_vec()); // proper prefix
+    pats.push(long0[rng.range(1, long0.len() - 1)..].to_vec()); // proper suffix
+    let mut seen = HashSet::new();
+    pats.retain(|p| !p.is_empty() && seen.insert(concat(p)));
+    rng.shuffle(&mut pats);
+    let frn = foreign(rng, akind, &alpha);
+    let noise = |rng: &mut Rng| -> Vec<u8> {
+        let mut v = Vec::new();
+        for _ in 0..rng.range(0, 6) {
+            v.extend(if frn.is_empty() || rng.chance(1, 2) { rng.pick(&alpha).clone() } else { rng.pick(&frn).clone() });
+        }
+        v
+    };
+    let mut h = noise(rng);
+    h.extend(concat(&long0));
+    h.extend(noise(rng));
+    h.extend(concat(&long0[..long0.len() - 1]));
+    h.extend(noise(rng));
+    h.extend(concat(&long0[1..]));
+    let mut h2 = concat(&long0);
+    h2.extend(concat(&long0));
+    let entry = if rng.chance(1, 2) { Entry::New } else { Entry::WithValues };
+    let patterns_b: Vec<Vec<u8>> = pats.iter().map(|p| concat(p)).collect();
+    let vals = match entry {
+        Entry::New => (0..patterns_b.len() as u32).collect(),
+        Entry::WithValues => values(rng, patterns_b.len()),
+    };
+    Case {
+        spec: Spec { variant, kind, nfb: nfb(rng), entry },
+        patterns: patterns_b,
+        values: vals,
+        haystacks: vec![h, h2],
+        utf8: akind != Alpha::Binary,
+        workload: "W10-long-patterns",
+    }
+}
+
 /// W1/W2/W5 mix of *small* cases for a given variant and kind.
 pub fn small_case(rng: &mut Rng, variant: Variant, kind: MatchKind, miri: bool) -> Case {
+    if !miri && rng.below(400) == 0 {
+        return long_case(rng, variant, kind);
+    }
     let (alpha, workload) = match variant {
         Variant::Bytewise => match rng.below(10) {
             0..=3 => (Alpha::Binary, "W2-binary"),
@@ -321,6 +430,12 @@ pub fn small_case(rng: &mut Rng, variant: Variant, kind: MatchKind, miri: bool) 
 
 /// W3: block-spanning pattern sets.
 pub fn large_case(rng: &mut Rng, variant: Variant, kind: MatchKind, max_patterns: usize) -> Case {
+    // under libFuzzer keep every execution cheap: a few hundred states still span several blocks
+    let fuzz = rng.is_bytes_mode();
+    let max_patterns = if fuzz { max_patterns.min(150) } else { max_patterns };
+    if !fuzz && max_patterns >= 2000 && rng.below(16) == 0 {
+        return many_patterns_case(rng, variant, kind);
+    }
     let n = rng.range(300.min(max_patterns), max_patterns);
     let (alpha, hay_frn): (Vec<Sym>, Vec<Sym>) = match variant {
         Variant::Bytewise => {
@@ -358,7 +473,7 @@ pub fn large_case(rng: &mut Rng, variant: Variant, kind: MatchKind, max_patterns
     let pats = patterns(rng, &alpha, n, max_len, 15);
     let mut hays = Vec::new();
     for _ in 0..3 {
-        let pieces = rng.range(20, 400);
+        let pieces = if fuzz { rng.range(5, 40) } else { rng.range(20, 400) };
         hays.push(haystack(rng, &pats, &alpha, &hay_frn, pieces));
     }
     let entry = if rng.chance(1, 2) { Entry::New } else { Entry::WithValues };
@@ -375,6 +490,71 @@ pub fn large_case(rng: &mut Rng, variant: Variant, kind: MatchKind, max_patterns
         haystacks: hays,
         utf8: variant == Variant::Charwise,
         workload: "W3-block-spanning",
+    }
+}
+
+/// W11: more than 65 536 patterns (output positions beyond 16 bits, tens of thousands of states):
+/// every 2-symbol string over a full alphabet plus some 1- and 3-symbol ones.
+pub fn many_patterns_case(rng: &mut Rng, variant: Variant, kind: MatchKind) -> Case {
+    let alpha: Vec<Sym> = match variant {
+        Variant::Bytewise => (0u32..256).map(|b| vec![b as u8]).collect(),
+        Variant::Charwise => {
+            let base = *rng.pick(&[0x20u32, 0x3040, 0x4E00, 0x1F300]);
+            char_block(base, rng.range(257, 300))
+        }
+    };
+    let mut pats: Vec<Vec<u8>> = Vec::with_capacity(alpha.len() * alpha.len() + 3000);
+    for a in &alpha {
+        for b in &alpha {
+            let mut p = a.clone();
+            p.extend_from_slice(b);
+            pats.push(p);
+        }
+    }
+    for _ in 0..rng.range(0, 40) {
+        pats.push(rng.pick(&alpha).clone());
+    }
+    let mut seen: HashSet<Vec<u8>> = pats.iter().cloned().collect();
+    for _ in 0..rng.range(100, 3000) {
+        let mut p = Vec::new();
+        for _ in 0..3 {
+            let a: &Sym = rng.pick(&alpha);
+            p.extend_from_slice(a);
+        }
+        if seen.insert(p.clone()) {
+            pats.push(p);
+        }
+    }
+    // duplicates among the 1-symbol extras
+    let mut s2 = HashSet::new();
+    pats.retain(|p| s2.insert(p.clone()));
+    rng.shuffle(&mut pats);
+    let mut hays = Vec::new();
+    for _ in 0..2 {
+        let mut h = Vec::new();
+        for _ in 0..rng.range(10, 300) {
+            let a: &Sym = rng.pick(&alpha);
+            h.extend_from_slice(a);
+        }
+        if variant == Variant::Charwise {
+            h.extend_from_slice("\u{10ffff}".as_bytes());
+            let a: &Sym = rng.pick(&alpha);
+            h.extend_from_slice(a);
+        }
+        hays.push(h);
+    }
+    let entry = if rng.chance(1, 2) { Entry::New } else { Entry::WithValues };
+    let vals = match entry {
+        Entry::New => (0..pats.len() as u32).collect(),
+        Entry::WithValues => values(rng, pats.len()),
+    };
+    Case {
+        spec: Spec { variant, kind, nfb: Some(*rng.pick(&[1u32, 2, 4, 16, 16, 64])), entry },
+        patterns: pats,
+        values: vals,
+        haystacks: hays,
+        utf8: variant == Variant::Charwise,
+        workload: "W11-more-than-65536-patterns",
     }
 }
 
